@@ -96,6 +96,32 @@ where
     | refilter f plist => simp only [World.step, FSub.step]; repeat' split; all_goals simp_all
 
 end
+/-! non-vacuity of `refilter_delta_exact`'s hypotheses: a parent holding one even-versioned object, a
+subscription with the accept-even filter made ready by the parent's readiness, then refiltered to reject-all -/
+section
+def exKey (o : Nat × Int) : Nat := o.1
+def exVer (o : Nat × Int) : Option Int := some o.2
+def exAcc (f : Bool) (o : Nat × Int) : Bool := f && o.2 % 2 == 0
+def exFeq (a b : Bool) : Bool := a == b
+def exP0 : AMap Nat (Nat × Int) := fun k => if k = 1 then some ⟨2, (1, 2)⟩ else none
+def exW0 : World Nat (Nat × Int) Bool := ⟨exP0, [], 0, FSub.init false true⟩
+def exW1 := exW0.step exKey exVer exAcc exFeq 100 (.parentReady [(1, 2)])
+
+private theorem exSnap : Snapshot exKey exVer [((1 : Nat), (2 : Int))] exP0 := by
+  intro k
+  by_cases hk : k = 1
+  · subst hk; decide
+  · have : ¬ (1 = k) := fun h => hk h.symm
+    simp [listedAll, exVer, exKey, exP0, this, hk]
+
+example : Reach exKey exVer exAcc exFeq 100 exW1 ∧ exW1.fs.ready = true ∧ exW1.consumed = exW1.plog.length ∧
+    exW1.enabled exKey exVer (.refilter false [(1, 2)]) ∧ exFeq exW1.fs.filter false = false ∧
+    lookup 1 exW1.fs.items = some ⟨2, (1, 2)⟩ ∧
+    (FSub.emitted exKey exVer exAcc exFeq exW1.fs (.refilter false [(1, 2)])).map (fun e => (e.t, e.obj)) = [(.delete, (1, 2))] := by
+  refine ⟨?_, by decide, rfl, ⟨by decide, exSnap⟩, by decide, by decide, by decide⟩
+  exact Reach.step exW0 _ (Reach.init exP0 false true (fun h => by cases h)) ⟨by decide, exSnap⟩
+end
+
 end KC.C07
 
 #print axioms KC.C07.refilter_equal_noop
